@@ -2,6 +2,7 @@ package verifsim
 
 import (
 	"fmt"
+	"os"
 	"time"
 )
 
@@ -511,6 +512,9 @@ func WatchScenario(t *Tape) *Scenario {
 // height must be decided by consensus.
 func SyncScenario(t *Tape) *Scenario {
 	sc := baseScenario(t, "sync", 1, 10)
+	if os.Getenv("VERIF_EXP_SYNC_EPOCHS") != "" {
+		addEpochs(t, sc)
+	}
 	sc.Heights = int(t.Range(SScen, 3, 8))
 	sc.GST = 0
 	sc.Delta = int64(sc.TPB) / pick(t, SScen, int64(1000), 200, 50, 20)
